@@ -4,3 +4,4 @@ From Agdb Require Export Bytes Utf8 Codec DbValue Graph DbModel Search Queries F
 From Agdb Require Raft.
 From Agdb Require Export ExecSched.
 From Agdb Require Export ValueIndex OpenFile.
+From Agdb Require Export Records Storage StorageSpec.
